@@ -59,6 +59,10 @@ var c07Sets = [][]c07Route{
 	// prefix, a duplicate, a second match-all): the accepted routes stay as they were
 	{{Method: "GET", Text: "/a/{x}"}, {Method: "GET", Text: "/a/{x}/{y}/{y}", Rejected: true}, {Method: "GET", Text: "/a/{x}/z"}, {Method: "GET", Text: "/a/{x}/z", Rejected: true}, {Method: "GET", Text: "/{m: **}"}},
 	{{Method: "GET", Text: "/a/b/z"}, {Method: "GET", Text: "/a/?b"}, {Method: "GET", Text: "/a", Rejected: true}, {Method: "GET", Text: "/a/{m: **}/{n: **}/z", Rejected: true}, {Method: "GET", Text: "/a/{m: **}/z"}},
+	// two static leaves with the same literal (the long form of an optional route and the plain route registered
+	// after it), constraints on the first: a request that fails them goes to the second
+	{{Method: "GET", Text: "/a/?z", Hdr: []string{"X-K", "^v$"}}, {Method: "GET", Text: "/a/z"}, {Method: "GET", Text: "/{x}"}},
+	{{Method: "GET", Text: "/?z", Hdr: []string{"X-K", "^v$"}}, {Method: "GET", Text: "/z", Hdr: []string{"X-K", "^w$"}}, {Method: "GET", Text: "/{m: **}"}},
 	// one route text registered separately for two methods, constraints on one of the two registrations only
 	{{Method: "GET", Text: "/a/{x}", Hdr: []string{"X-K", "^v$"}}, {Method: "POST", Text: "/a/{x}"}, {Method: "POST", Text: "/z/?z", Hdr: []string{"X-K", "^w$"}}, {Method: "GET", Text: "/z/?z"}, {Method: "HEAD", Text: "/a/{x}", Hdr: []string{"X-K", "^w$"}}},
 	// a route whose only segment is optional (its short form is the root) registered after dynamic one-segment routes
